@@ -64,7 +64,7 @@ func RunNode(s *simrt.Sim, name string, crashAt int, fn func()) (crashed bool, o
 // mutating op). Faults fire only for nodes accepted by Only (nil = all).
 type DiskFaultRates struct {
 	EIO, ENOSPC, Short int
-	Only              func(n *simrt.Node) bool
+	Only               func(n *simrt.Node) bool
 	// Match restricts injection to ops whose kind/path it accepts (nil = all).
 	Match func(kind, path string) bool
 }
